@@ -176,6 +176,7 @@ func (g *Gen) snippet() string {
 				`<input type="text" :value="name" :disabled="off" :required="flag" :data-a="cls" :data-b="title"></input>`,
 				`<div id="st-{{ n }}" title="t {{ title }}" :lang="cls" v-bind:data-q="name">x</div>`,
 				`<div :class="{active: flag, off: off, 'is-admin': user.admin}" class="base">c</div>`,
+				`<div :class="cmap" class="s">class map</div>`, `<span :class="cmap">cm</span>`,
 			})
 		}},
 		{"style", func() string {
@@ -202,6 +203,7 @@ func (g *Gen) snippet() string {
 		}},
 		{"expr", func() string {
 			return Pick(r, []string{`<p>{{ n + 1 }} {{ n * 2 > 4 }}</p>`, `<p>{{ flag ? "yes" : "no" }} {{ len(items) }}</p>`, `<p>{{ user.name + "!" }}</p>`, `<p>{{ n >= 2 && flag }}</p>`,
+				`<p>{{ n == num }} {{ name == cls }} {{ n == depth }} {{ flag == off }}</p>`, `<p v-if="n == 3">n is three</p><p v-else-if="name == title">same</p><p v-else>{{ n != num }}</p>`,
 				`<p>{{ keys(m) }} / {{ values(m) }}</p>`, `<template :ks="keys(m)"><i v-for="k in ks">{{ k }}</i></template>`, `<p :data-pairs="toPairs(m)">{{ len(toPairs(m)) }}</p>`})
 		}},
 		{"include", func() string {
@@ -432,7 +434,11 @@ func StripFrontMatter(s string) string {
 
 // randomKernel draws the simulator knobs of a sequential run.
 func randomData(r *Rand, tag string) DataSpec {
-	return DataSpec{Shape: Pick(r, []string{"map", "map", "map", "map", "struct", "struct", "ptr", "ptr", "nil", "emptymap"}), Tag: tag, Items: r.Intn(4), Flag: r.Bool(), Variant: r.Intn(6)}
+	d := DataSpec{Shape: Pick(r, []string{"map", "map", "map", "map", "struct", "struct", "ptr", "ptr", "nil", "emptymap"}), Tag: tag, Items: r.Intn(4), Flag: r.Bool(), Variant: r.Intn(6)}
+	if d.Shape == "map" && r.Chance(35) {
+		d.Alt = 1 + r.Intn(2)
+	}
+	return d
 }
 
 func randomEngine(r *Rand, base EngineSpec) EngineSpec {
